@@ -468,6 +468,9 @@ func TestVerifWorker(t *testing.T) {
 			if os.Getenv("VERIF_NOSHRINK") == "" && viols <= 3 && !strings.Contains(v.Class, "-race:") {
 				min, r.Shrunk = shrink(e, s, tier, r.Tape, v.Class, 400, time.Now().Add(60*time.Second))
 			}
+			if len(min) == 0 {
+				min = []uint32{0} // the all-benign tape; kept non-empty so that it survives omitempty
+			}
 			r.MinTape = min
 			// Re-run the minimised tape with tracing for the replay file.
 			x2, v2 := execEngine(e, simrt.ReplayTape(min), s, tier, true)
